@@ -109,8 +109,8 @@ Inductive tree (R : Type) : Type :=
        (kids : list (fid * tree R)).
 Arguments Node {R} cls iss attrs refs kids.
 
-Definition obj := tree (list path).
-Definition forest := list obj.
+Notation obj := (tree (list path)) (only parsing).
+Notation forest := (list (tree (list path))) (only parsing).
 
 Definition t_cls {R} (t : tree R) : cid := match t with Node c _ _ _ _ => c end.
 
